@@ -173,7 +173,7 @@ theorem num_scan (lc : Libc) (t : Tok) (l : Loc) (cur : JVal) (nm : Option Bytes
 
 theorem follow_not_accepted (t : Tok) (nl : NumLoc) (nb : UInt8) (h : Follow nb) : numAccepts t nl nb = false := by
   unfold numAccepts
-  rcases h with h | h | h | h | h
+  rcases h with h | h | h | h | h | h
   · simp only [isWs, Bool.or_eq_true, beq_iff_eq] at h
     rcases h with ((h | h) | h) | h <;> subst h <;> simp [isDigit]
   all_goals subst h; simp [isDigit]
@@ -398,14 +398,15 @@ theorem parsed_num (lc : Libc) (hl : LibcSpec lc) (t : Tok) (l : Loc) (cur : JVa
   have hd : disp lc t1 l1 nb = .redo tf { l1 with num := none } := by
     simp only [disp, s1.st, dNumber, dNumberCore, s1.fg, follow_not_accepted t1 _ nb hnb]
     have hdepth : (!rest.isEmpty && nb != 44 && nb != 93 && nb != 125 && nb != 47 && nb != 73 && nb != 105 && !isWs nb) = false := by
-      rcases hnb with h | h | h | h | h
+      rcases hnb with h | h | h | h | h | h
       · simp [h]
       · subst h; simp
       · subst h; simp
       · subst h; simp
       · have := hnul h; subst this; simp
+      · subst h; simp
     have hinf : (t1.pb.head? == some 45 && t1.pb.length == 1 && (nb == 105 || nb == 73)) = false := by
-      rcases hnb with h | h | h | h | h
+      rcases hnb with h | h | h | h | h | h
       · have : (nb == 105) = false ∧ (nb == 73) = false := by
           simp only [isWs, Bool.or_eq_true, beq_iff_eq] at h
           rcases h with ((h | h) | h) | h <;> subst h <;> decide
